@@ -839,6 +839,11 @@ func immutableCapture(fn *ssa.Function, fv *ssa.FreeVar, depth int) bool {
 						}
 						stores++
 					case *ssa.UnOp, *ssa.DebugRef:
+					case *ssa.FieldAddr:
+						// reading a field of the variable in place is a read
+						if !derivedOnlyRead(u, 0) {
+							return false
+						}
 					case *ssa.MakeClosure:
 						cf := u.Fn.(*ssa.Function)
 						for i, bb := range u.Bindings {
@@ -881,8 +886,12 @@ func freeVarWritten(fv *ssa.FreeVar, depth int) bool {
 			if rootValue(x.Addr) == ssa.Value(fv) {
 				return true
 			}
-		case *ssa.FieldAddr, *ssa.IndexAddr:
-			// stores through derived addresses
+		case *ssa.FieldAddr:
+			// stores through derived addresses, or derived addresses handed to somebody else
+			if !derivedOnlyRead(x, 0) {
+				return true
+			}
+		case *ssa.IndexAddr:
 			if derivedStored(r.(ssa.Value), 0) {
 				return true
 			}
@@ -921,6 +930,35 @@ func derivedStored(v ssa.Value, depth int) bool {
 		}
 	}
 	return false
+}
+
+// derivedOnlyRead: the address v (a field of a variable) is only loaded from, or refined to the
+// address of a nested field that is itself only loaded from; it is never stored through, passed
+// to a call, converted or kept.
+func derivedOnlyRead(v ssa.Value, depth int) bool {
+	if depth > 5 {
+		return false
+	}
+	refs := v.Referrers()
+	if refs == nil {
+		return true
+	}
+	for _, r := range *refs {
+		switch u := r.(type) {
+		case *ssa.UnOp:
+			if u.Op != token.MUL {
+				return false
+			}
+		case *ssa.DebugRef:
+		case *ssa.FieldAddr:
+			if !derivedOnlyRead(u, depth+1) {
+				return false
+			}
+		default:
+			return false
+		}
+	}
+	return true
 }
 
 func rootValue(v ssa.Value) ssa.Value {
